@@ -213,7 +213,9 @@ def h_make_cref(cref):
         if rep in cref[star]:
             toks = parser.parms.scanner.scan(cref[star][rep])
             for t in toks:
+                # all characters share the position of the macro call
                 t.pos = pos
+                t.pos_fix = True
             return toks
         return utils.latex_error(msg_cref_undefined.format(mac.name,rep),
                                  pos, parser.latex, parser.parms)
@@ -227,7 +229,9 @@ def h_make_crefrange(cref):
         if rep in cref[star]:
             toks = parser.parms.scanner.scan(cref[star][rep])
             for t in toks:
+                # all characters share the position of the macro call
                 t.pos = pos
+                t.pos_fix = True
             return toks
         return utils.latex_error(msg_crefrange_undefined.format(mac.name,*rep),
                                  pos, parser.latex, parser.parms)
